@@ -3,7 +3,7 @@
 pub ghost struct Store {
     pub config: Option<Config>,
     pub state: Option<State>,
-    pub positions: Map<(Seq<char>, Seq<char>), Position>,    // key: (vamm, trader) — sha3(vamm || trader) assumed injective on pairs
+    pub positions: Map<Seq<char>, Position>,                  // key: vamm ++ trader, the byte string fed to sha3 (sha3 assumed collision-free); NO separator, as in the code
     pub tmp_swap: Option<TmpSwapInfo>,
     pub sent_funds: Option<SentFunds>,
     pub tmp_liquidator: Option<Addr>,
@@ -13,7 +13,7 @@ pub ghost struct Store {
 }
 pub ghost struct World { pub _w: int }
 
-pub open spec fn pos_key(vamm: Addr, trader: Addr) -> (Seq<char>, Seq<char>) { (vamm@, trader@) }
+pub open spec fn pkey(vamm: Seq<char>, trader: Seq<char>) -> Seq<char> { vamm + trader }
 
 // ---- singleton cells ----
 #[verifier::external_body]
@@ -87,26 +87,26 @@ pub fn singleton_remove__KEY_TMP_LIQUIDATOR(storage: &mut dyn Storage)
     ensures final(storage).view() == (Store { tmp_liquidator: None, ..old(storage).view() }),
 { unimplemented!() }
 
-// ---- position bucket: key = sha3_256(vamm bytes || trader bytes). NOT extracted (hash code): assumed to be a map
-//      keyed by the (vamm, trader) pair (collision-free; no ambiguity of the concatenation for real addresses) ----
+// ---- position bucket: key = sha3_256(vamm bytes || trader bytes). NOT extracted (hash code): assumed to be a map keyed by
+//      the concatenated byte string (sha3 collision-free). The concatenation itself is modelled faithfully: ("ab","c") and ("a","bc") alias. ----
 pub open spec fn default_position() -> Position {
     Position { vamm: Addr { s: Ghost(""@) }, trader: Addr { s: Ghost(""@) }, direction: Direction::AddToAmm,
         size: Integer { value: Uint128(0), negative: false }, margin: Uint128(0), notional: Uint128(0),
         last_updated_premium_fraction: Integer { value: Uint128(0), negative: false }, block_number: 0 }
 }
 pub open spec fn position_at(s: Store, vamm: Seq<char>, trader: Seq<char>) -> Position {
-    if s.positions.contains_key((vamm, trader)) { s.positions[(vamm, trader)] } else { default_position() }
+    if s.positions.contains_key(pkey(vamm, trader)) { s.positions[pkey(vamm, trader)] } else { default_position() }
 }
 #[verifier::external_body]
 pub fn store_position(storage: &mut dyn Storage, position: &Position) -> (r: StdResult<()>)
     ensures
         r is Ok,
-        r is Ok ==> final(storage).view() == (Store { positions: old(storage).view().positions.insert((position.vamm@, position.trader@), *position), ..old(storage).view() }),
+        r is Ok ==> final(storage).view() == (Store { positions: old(storage).view().positions.insert(pkey(position.vamm@, position.trader@), *position), ..old(storage).view() }),
         r is Err ==> final(storage).view() == old(storage).view(),
 { unimplemented!() }
 #[verifier::external_body]
 pub fn remove_position(storage: &mut dyn Storage, position: &Position)
-    ensures final(storage).view() == (Store { positions: old(storage).view().positions.remove((position.vamm@, position.trader@)), ..old(storage).view() }),
+    ensures final(storage).view() == (Store { positions: old(storage).view().positions.remove(pkey(position.vamm@, position.trader@)), ..old(storage).view() }),
 { unimplemented!() }
 #[verifier::external_body]
 pub fn read_position(storage: &dyn Storage, vamm: &Addr, trader: &Addr) -> (r: StdResult<Position>)
